@@ -2,6 +2,7 @@
 import random
 
 from vmon import gens as G
+from vmon.gens import THOROUGH_SCALE as TS
 from vmon import oracles as O
 from vmon import search as S
 
@@ -11,6 +12,7 @@ RULE = ("each case = one amino-acid string collection x max_edits x subset of en
         "the engines with each other. Exhaustive universes on 3-letter sub-alphabets straddling kdtree's "
         "composition bins (ACD adjacent, AWY far apart, CDY mixed); radius-boundary family x^k.W vs y^k.W "
         "(composition distance exactly sqrt(2)k); indels next to repeated letters; CDR3-like repertoires. "
+        "One extra case re-runs the repository's own search tests with icontract post-conditions on the four engines. "
         "distinct_nontrivial = distinct (sequences, k, engines) with a non-empty oracle neighbour set.")
 ASSUMPTIONS = ["20-letter amino-acid alphabet only (kdtree and hash_based enumerate it)",
                "hash_based is exponential in max_edits: k=2 only on strings of length<=6 and <=25 per call, k=3 on length<=2"]
@@ -22,7 +24,7 @@ EXHAUSTIVE = {"quick": ["all strings len<=4 over ACD / AWY / CDY: kdtree k=1..3,
                            "every string len<=3 over AC paired with each of its one-edit variants"]}
 REQUIRE = {"kdtree_calls": 40, "hash_based_calls": 40, "hash_based_k>=2": 5, "kdtree_k>=2": 10,
            "radius_boundary_cases": 8, "inputs_with_indel_neighbour_pairs": 20, "inputs_with_d0_pairs": 10,
-           "inputs_empty-string": 3, "engine_pairs_compared": 50, "triplets_compared": 1000}
+           "inputs_empty-string": 3, "engine_pairs_compared": 50, "suite_contract_evaluations": 20, "triplets_compared": 1000}
 SHARDS = {"quick": 6, "thorough": 16}
 
 
@@ -63,7 +65,38 @@ def k_engines(ctx, seqs, k, engines, tag=None):
                               sorted(results[a].elements())[:30], sorted(results[b].elements())[:30])
 
 
-KINDS = {"engines": k_engines}
+def k_suite(ctx):
+    """The repository's own search tests, re-run with icontract post-conditions on the four engines (vmon/suite_plugin.py)."""
+    import json
+    import os
+    import subprocess
+    import tempfile
+    from vmon import core
+    fd, out = tempfile.mkstemp(prefix="vmon-suite-", suffix=".json")
+    os.close(fd)
+    env = dict(os.environ, VMON_SUITE_OUT=out,
+               PYTHONPATH=os.pathsep.join([core.VERIF, os.path.join(core.VERIF, ".deps"), core.REPO]))
+    try:
+        subprocess.run([os.sys.executable, "-m", "pytest", "-q", "-p", "no:cacheprovider", "-p", "vmon.suite_plugin",
+                        "tests/test_nearest_neighbor.py"], cwd=core.REPO, env=env, capture_output=True, text=True, timeout=600)
+        with open(out) as f:
+            st = json.load(f)
+    finally:
+        if os.path.exists(out):
+            os.remove(out)
+    ctx.nontriv(["suite", sorted(st["evaluations"].items())])
+    ctx.sample("suite_under_contracts", st["evaluations"])
+    for fn, n in st["evaluations"].items():
+        ctx.count("suite_contract_evaluations", n)
+        ctx.count(f"suite_contract_evaluations:{fn}", n)
+    for v in st["violations"]:
+        if "contract_error" in v:
+            raise RuntimeError(f"suite contract failed to evaluate: {v}")
+        ctx.violation(f"suite:{v['function']}:{'default' if v['mode'] == 'None' else v['mode'][:20]}",
+                      "a post-condition fired while the repository's own tests were running", v, None)
+
+
+KINDS = {"engines": k_engines, "suite": k_suite}
 
 ALL3 = ["nearest_neighbor", "hash_based", "kdtree"]
 
@@ -71,6 +104,7 @@ ALL3 = ["nearest_neighbor", "hash_based", "kdtree"]
 def generate(tier, seed):
     rng = random.Random(4000 + seed)
     thorough = tier == "thorough"
+    yield "suite", {}, True
     L = 5 if thorough else 4
     for alpha in ("ACD", "AWY", "CDY"):
         u = G.universe(alpha, L)
@@ -100,7 +134,7 @@ def generate(tier, seed):
     # random multisets on sub-alphabets
     pools = [G.universe("ACD", 4), G.universe("AWY", 4), G.universe("CDY", 4), G.universe("AC", 6),
              G.universe("ACDEFGHIKLMNPQRSTVWY", 1) + G.universe("AY", 4)]
-    n_rand = 5000 if thorough else 260
+    n_rand = 5000 * TS if thorough else 260
     for i in range(n_rand):
         pool = pools[i % len(pools)]
         k = rng.choice([1, 1, 1, 2, 2, 3])
@@ -115,7 +149,7 @@ def generate(tier, seed):
             eng = ["nearest_neighbor", "kdtree"]
         yield "engines", {"seqs": seqs, "k": k, "engines": eng}, i < 60
     # repertoires: kdtree up to k=6, hash_based k=1
-    n_rep = 300 if thorough else 30
+    n_rep = 300 * TS if thorough else 30
     for i in range(n_rep):
         n = rng.randint(30, 140) if not thorough else rng.randint(50, 350)
         seqs = G.repertoire(rng, n, families=max(2, n // rng.choice([4, 8, 20])))
